@@ -170,6 +170,8 @@ class SingleRun:
         self.steps_done = 0
         self.phases_seen: dict[int, set] = {gi: set() for gi in range(len(trace["groups"]))}
         self.ended_naturally = False
+        self.failure_messages: list[str] = []
+        self.failed_this_step: set = set()
 
     def close(self) -> None:
         for lg in self._loggers:
@@ -351,6 +353,8 @@ class RefOracle(Oracle):
             if r.levelno >= logging.WARNING and "Matrix computation failed" in r.getMessage():
                 msg = r.getMessage()
                 failed_indices.add(msg.split("factor matrix ", 1)[1].split(" ", 1)[0])
+                run.failure_messages.append(msg[:300])
+        run.failed_this_step = failed_indices
         if exc is not None:
             if self.fault_aware:
                 return
@@ -450,8 +454,14 @@ class RefOracle(Oracle):
 
         # inverse roots / eigenbases
         any_failed = any(idx.rsplit(".", 1)[0] == f"{self._param_index_in_group(run, b)}.{b.key}" for idx in failed)
-        if any_failed:
-            run.probes["solver_failed_natural"] += 1
+        if any_failed and not self.fault_aware:
+            if hp.solver["type"] in ("newton", "higher_order"):
+                run.probes["solver_failed_natural"] += 1
+            else:
+                # eigh / QR do not fail on finite input: a logged failure in a fault-free run means the refresh the
+                # property demands did not happen
+                tag = "inv_root_not_refreshed" if hp.kind == "shampoo" else "basis_not_refreshed"
+                raise run.violation(tag, gi, note="amortized computation failed without an injected fault", failed=sorted(failed)[:4], **ctx)
         if not exp.refresh:
             for k, (a, e) in enumerate(zip(post.raw["inv"], pre["state"].raw["inv"])):
                 if not spec.bit_equal(a, e):
@@ -594,6 +604,9 @@ class SoapBasisOracle(Oracle):
                         raise run.violation("basis_not_orthonormal", gi, factor=k, gap=og, tol=tol_o, **ctx)
                 if not (present and hp.is_refresh(t)):
                     continue
+                pig = run.trace["groups"][gi]["params"].index(b.param_index)
+                if any(idx.rsplit(".", 1)[0] == f"{pig}.{b.key}" for idx in run.failed_this_step):
+                    continue
                 for k, (Q, L, Qprev) in enumerate(zip(Qs, Ls, self.pre_bases[(gi, b.li)])):
                     n = Q.shape[0]
                     if n == 1:
@@ -609,16 +622,18 @@ class SoapBasisOracle(Oracle):
                             raise run.violation("basis_not_diagonalising", gi, factor=k, gap=r, tol=tol, **ctx)
                     else:
                         ok, best = self._is_orthogonal_iterate(Q, L, Qprev, solver.get("max_iterations", 1), unit)
-                        run.probes["basis_qr_iterate_checked"] += 1
+                        run.probes["basis_qr_iterate_checked" if best >= 0 else "basis_qr_iterate_undecidable"] += 1
                         if not ok:
                             raise run.violation("basis_not_orthogonal_iterate", gi, factor=k, gap=best, **ctx)
 
     @staticmethod
-    def _match_qr_factor(Qf: torch.Tensor, M: torch.Tensor, unit: float) -> tuple[bool, float, int]:
+    def _match_qr_factor(
+        Qf: torch.Tensor, M: torch.Tensor, unit: float, margin: float, floor: float, det_thresh: float
+    ) -> tuple[bool, float, int]:
         """Is Qf (columns in any order, any sign) a Q-factor of M?  Gram-Schmidt matching over the *determined* prefix:
         column j of a Q-factor is +-normalize(M[:, j] - proj onto earlier columns) as long as that residual is well
-        above round-off; from the first undetermined column on, later columns depend on an arbitrary completion and
-        are not constrained. Returns (ok, worst angle excess, number of determined columns matched)."""
+        above round-off; from the first poorly determined column on, later columns depend on an arbitrary completion
+        and are not constrained. Returns (ok, worst angle, number of determined columns matched)."""
         n = Qf.shape[0]
         used = [False] * n
         chosen: list[torch.Tensor] = []
@@ -633,7 +648,7 @@ class SoapBasisOracle(Oracle):
                     v = v - (c @ v) * c
             nv = float(v.norm())
             theta_allowed = 200.0 * n * unit * mscale / max(nv, 1e-300)
-            if not (theta_allowed <= 0.3):
+            if not (theta_allowed <= det_thresh):
                 return True, worst, j
             vh = v / nv
             cos = (Qf.T @ vh).abs()
@@ -641,28 +656,357 @@ class SoapBasisOracle(Oracle):
                 if used[c]:
                     cos[c] = -1.0
             c = int(cos.argmax())
-            cval = min(1.0, float(cos[c]))
-            theta = (2.0 * (1.0 - cval)) ** 0.5
-            worst = max(worst, theta / theta_allowed)
-            if theta > theta_allowed:
+            qc = Qf[:, c]
+            # angle from the component of the matched column orthogonal to vh (linear in the error, unlike 1 - cos)
+            theta = float((qc - (qc @ vh) * vh).norm()) / max(float(qc.norm()), 1e-300)
+            worst = max(worst, theta)
+            if theta > max(margin * theta_allowed, floor):
                 return False, theta, j
             used[c] = True
-            chosen.append(Qf[:, c])
+            chosen.append(qc / max(float(qc.norm()), 1e-300))
         return True, worst, n
 
     @classmethod
     def _is_orthogonal_iterate(cls, Q, L, Qprev, max_iter: int, unit: float) -> tuple[bool, float]:
         """Q equals (up to column sign and order) the j-th orthogonal iterate qr(L @ Q_{j-1}) of the previous basis for
-        some j in 1..max_iter (the early-stopping rule is an implementation detail the property does not fix)."""
+        some j in 1..max_iter (the early-stopping rule is an implementation detail the property does not fix).
+
+        With a single iteration (the default configuration) the comparison is tight (10x the round-off bound of each
+        well-determined column). Chains of several iterations amplify round-off by the eigenvalue ratios at every
+        step, so there only gross disagreement (angle > 0.3 on a column determined to 1e-3) is reported."""
         best = float("inf")
         cur = Qprev
+        single = max_iter <= 1
+        n = Q.shape[0]
         for j in range(max(1, max_iter)):
             M = L @ cur
-            ok, worst, matched = cls._match_qr_factor(Q, M, unit)
+            if single:
+                ok, worst, matched = cls._match_qr_factor(Q, M, unit, margin=10.0, floor=0.0, det_thresh=0.03)
+            else:
+                ok, worst, matched = cls._match_qr_factor(Q, M, unit, margin=10.0, floor=0.3, det_thresh=1e-3)
             if ok:
                 return True, worst
             best = min(best, worst)
-            if matched < Q.shape[0] and j == 0 and False:
-                break
+            # can the next iterate still be judged?  only if this one was fully and well determined, otherwise its
+            # arbitrary / ill-conditioned columns feed the next power step and nothing can be said
             cur = torch.linalg.qr(M).Q
+            okc, _, matched_c = cls._match_qr_factor(cur, M, unit, margin=1e9, floor=1e9, det_thresh=1e-4)
+            if single:
+                return False, best
+            if matched_c < n:
+                return True, -1.0  # undecidable from here on (counted by the caller as a skip)
         return False, best
+
+
+class BlockingOracle(Oracle):
+    """C05 construction-time invariants (DESIGN section 4, C05) + gradient blocks cover the same index sets."""
+
+    def on_built(self, run: SingleRun) -> None:
+        for gi, refs in enumerate(run.blocks):
+            hp = run.hps[gi]
+            by_param: dict[int, list[BlockRef]] = {}
+            for b in refs:
+                by_param.setdefault(b.param_index, []).append(b)
+            for pi in run.trace["groups"][gi]["params"]:
+                blocks = by_param.get(pi, [])
+                p = run.params[pi].detach()
+                ctx = {"param": pi, "shape": list(p.shape), "max_dim": hp.max_dim, "merge": hp.merge}
+                if not blocks:
+                    raise run.violation("tiling_gap_or_overlap", gi, note="parameter has no block", **ctx)
+                seen = torch.zeros(max(1, p.numel()), dtype=torch.int32)
+                for b in blocks:
+                    if b.block.untyped_storage().data_ptr() != p.untyped_storage().data_ptr():
+                        raise run.violation("block_not_view", gi, block=b.key, **ctx)
+                    if b.block.requires_grad:
+                        raise run.violation("block_not_view", gi, block=b.key, note="block requires grad", **ctx)
+                    if any(d > hp.max_dim for d in b.block.shape):
+                        raise run.violation("block_dim_exceeds_limit", gi, block=b.key, block_shape=list(b.block.shape), **ctx)
+                    flat = b.idx.reshape(-1)
+                    if flat.numel() and (int(flat.min()) < 0 or int(flat.max()) >= p.numel()):
+                        raise run.violation("tiling_gap_or_overlap", gi, block=b.key, note="index outside parameter", **ctx)
+                    if flat.numel() > 1 and not bool((flat[1:] > flat[:-1]).all()):
+                        raise run.violation("order_not_row_major", gi, block=b.key, **ctx)
+                    seen.index_add_(0, flat, torch.ones_like(flat, dtype=torch.int32))
+                if p.numel() and not bool((seen[: p.numel()] == 1).all()):
+                    raise run.violation(
+                        "tiling_gap_or_overlap", gi, uncovered=int((seen[: p.numel()] == 0).sum()), multiply=int((seen[: p.numel()] > 1).sum()), **ctx
+                    )
+                # merged shape recovered from the block strides
+                b0 = blocks[0]
+                if b0.block.dim() > 0 and p.numel() > 0:
+                    st = list(b0.block.stride())
+                    if any(list(b.block.stride()) != st for b in blocks):
+                        raise run.violation("merge_not_adjacent_or_over_limit", gi, note="blocks disagree on strides", **ctx)
+                    merged = []
+                    ok = True
+                    for d in range(len(st)):
+                        hi = p.numel() if d == 0 else st[d - 1]
+                        if st[d] == 0 or hi % st[d] != 0:
+                            ok = False
+                            break
+                        merged.append(hi // st[d])
+                    if not ok or st[-1] != 1:
+                        raise run.violation("merge_not_adjacent_or_over_limit", gi, note="strides are not those of a contiguous view", strides=st, **ctx)
+                    if not self._valid_merge(list(p.shape), merged, hp.max_dim, hp.merge):
+                        raise run.violation("merge_not_adjacent_or_over_limit", gi, merged=merged, **ctx)
+                    run.probes["merge_checked"] += 1
+                    if len(blocks) > 1:
+                        run.probes["multi_block_param"] += 1
+                run.probes["tiling_checked"] += 1
+
+    @staticmethod
+    def _valid_merge(shape: list[int], merged: list[int], max_dim: int, merge: bool) -> bool:
+        if not merge:
+            return merged == shape
+        sq = [s for s in shape if s != 1] or [1]
+        # merged must be a fusion of adjacent entries of sq; every fused run (len >= 2) has product <= max_dim
+        i = 0
+        for m in merged:
+            prod, cnt = 1, 0
+            while i < len(sq) and prod < m:
+                prod *= sq[i]
+                i += 1
+                cnt += 1
+            if cnt == 0 and m == 1 and sq == [1] and i == 0:
+                i = 1
+                continue
+            if prod != m:
+                return False
+            if cnt >= 2 and m > max_dim:
+                return False
+        return i == len(sq)
+
+    def post_step(self, run: SingleRun, ei: int, ev: dict, exc: BaseException | None) -> None:
+        if exc is not None:
+            return
+        for gi, refs in enumerate(run.blocks):
+            if not run.group_present(gi, ev):
+                continue
+            sl = adapter.group_state_lists(run.opt, gi)
+            if "masked_blocked_grads" not in sl:
+                raise adapter.HarnessError("state_lists['masked_blocked_grads'] not found")
+            gblocks = sl["masked_blocked_grads"]
+            present = [b for b in refs if ev["g"][b.param_index] is not None]
+            if len(gblocks) != len(present):
+                raise run.violation("grad_block_index_set_differs", gi, n_grad_blocks=len(gblocks), n_present_blocks=len(present))
+            for gb, b in zip(gblocks, present):
+                g = b.param.grad
+                if g is None or gb.untyped_storage().data_ptr() != g.untyped_storage().data_ptr():
+                    raise run.violation("grad_block_index_set_differs", gi, block=b.key, note="gradient block is not a view of the gradient")
+                gidx = refmodel.block_flat_indices(gb, g.detach())
+                if gidx.shape != b.idx.shape or not bool((gidx == b.idx).all()):
+                    raise run.violation("grad_block_index_set_differs", gi, block=b.key, param=b.param_index)
+                run.probes["grad_block_checked"] += 1
+
+
+class PresplitTwin(Oracle):
+    """C05 metamorphic twin: A's observed blocks as separate contiguous parameters (merge off), same events."""
+
+    def __init__(self) -> None:
+        self.twin = None
+        self.map: list[list[int]] = []  # per group: twin param index per block
+
+    def on_built(self, run: SingleRun) -> None:
+        params = []
+        groups = []
+        self.block_refs: list[BlockRef] = []
+        for gi, refs in enumerate(run.blocks):
+            idxs = []
+            for b in refs:
+                idxs.append(len(params))
+                params.append({"shape": list(b.block.shape), "dtype": spec.DTYPE_NAMES[b.param.dtype], "init_seed": 0})
+                self.block_refs.append(b)
+            ov = dict(run.trace["groups"][gi].get("overrides", {}))
+            ov["use_merge_dims"] = False
+            groups.append({"params": idxs, "overrides": ov})
+        t = {**run.trace, "params": params, "groups": groups}
+        # Each twin parameter is a separate leaf with the *same strides* as the observed block (a view into a private
+        # clone of the parameter), so that both systems run the very same floating-point kernels: the comparison then
+        # is exact even where inverse roots / eigenbases are ill-conditioned.
+        self.bases = {pi: p.detach().clone() for pi, p in enumerate(run.params)}
+        self.tparams = [
+            torch.as_strided(
+                self.bases[b.param_index], tuple(b.block.shape), tuple(b.block.stride()), b.block.storage_offset() - b.param.storage_offset()
+            ).requires_grad_(True)
+            for b in self.block_refs
+        ]
+        self.topt = spec.build_optimizer(t, self.tparams, pt2=None)
+        run.log.take()
+
+    def pre_step(self, run: SingleRun, ei: int, ev: dict) -> None:
+        gbases = {pi: (None if p.grad is None else p.grad.detach().clone()) for pi, p in enumerate(run.params)}
+        for b, tp in zip(self.block_refs, self.tparams):
+            gb = gbases[b.param_index]
+            tp.grad = (
+                None
+                if gb is None
+                else torch.as_strided(gb, tuple(b.block.shape), tuple(b.block.stride()), b.block.storage_offset() - b.param.storage_offset())
+            )
+        self.prev = [tp.detach().clone() for tp in self.tparams]
+
+    def on_hparam(self, run: SingleRun, ei: int, ev: dict) -> None:
+        self.topt.param_groups[ev["group"]][ev["key"]] = ev["value"]
+
+    def post_step(self, run: SingleRun, ei: int, ev: dict, exc: BaseException | None) -> None:
+        texc = None
+        try:
+            self.topt.step()
+        except Exception as e:  # noqa: BLE001
+            texc = e
+        run.log.take()
+        if exc is not None or texc is not None:
+            if (exc is None) != (texc is None):
+                if natural_failure(run, exc or texc):
+                    run.probes["ended_by_natural_solver_failure"] += 1
+                    return
+                raise run.violation("presplit_twin_diverges", 0, note="only one of the two systems raised", a=repr(exc)[:200], b=repr(texc)[:200])
+            return
+        from .worldrun import exact_tol, rel_param_gap
+
+        for b, tp, prev in zip(self.block_refs, self.tparams, self.prev):
+            a = torch.take(b.param.detach().reshape(-1), b.idx)
+            e = tp.detach().clone()
+            if not (refmodel.is_finite(a) and refmodel.is_finite(e)):
+                run.probes["nonfinite_state_skip"] += 1
+                continue
+            gap = rel_param_gap(a, e, prev)
+            run.probes["presplit_compare"] += 1
+            if spec.bit_equal(a, e):
+                run.probes["presplit_bit_equal"] += 1
+            if gap > exact_tol(a.dtype):
+                raise run.violation("presplit_twin_diverges", b.gi, block=b.key, param=b.param_index, gap=gap, tol=exact_tol(a.dtype), shape=list(b.block.shape))
+            with torch.no_grad():
+                tp.copy_(a)
+
+
+class NormTransferOracle(Oracle):
+    """C02 second sentence: from start_preconditioning_step on, every block's step has the grafted direction's norm and
+    the Shampoo direction (checked when momentum = 0 and weight decay = 0, where delta_block = -lr * P is observable)."""
+
+    def __init__(self, ref: RefOracle) -> None:
+        self.ref = ref
+
+    def post_step(self, run: SingleRun, ei: int, ev: dict, exc: BaseException | None) -> None:
+        if exc is not None:
+            return
+        for gi, refs in enumerate(run.blocks):
+            hp = run.hps[gi]
+            if hp.grafting is None or hp.momentum != 0.0 or hp.weight_decay != 0.0 or not run.group_present(gi, ev):
+                continue
+            t = run.counters[gi]
+            if t < hp.start:
+                continue
+            lr = spec.f32(hp.lr)
+            if lr == 0.0:
+                continue
+            for b in refs:
+                pre = self.ref.pre.get((gi, b.li))
+                if pre is None:
+                    continue
+                post = refmodel.read_block_state(run.opt.state[b.param][b.key])
+                if not all(refmodel.is_finite(x) for x in [pre["W"], pre["G"], *post.inv]):
+                    continue
+                exp = refmodel.expected_step(hp, t, pre["W"], pre["G"], pre["state"], post.inv)
+                if exp.shampoo_direction is None:
+                    continue
+                W_now = torch.take(b.param.detach().reshape(-1), b.idx).to(refmodel.F64)
+                delta = W_now - pre["W"]
+                gn = float(torch.linalg.vector_norm(exp.graft_direction))
+                sn = float(torch.linalg.vector_norm(exp.shampoo_direction))
+                dn = float(torch.linalg.vector_norm(delta))
+                rt = refmodel.RTOL[b.param.dtype]
+                # delta = W_new - W_pre is itself a rounded difference: its error is ~ u * |W| per element
+                round_off = spec.UNIT[b.param.dtype] * float(torch.linalg.vector_norm(pre["W"])) * 4
+                if not (sn > 1e-12 * max(gn, 1e-300)) or exp.amplification > 1e3 or gn == 0.0 or not math.isfinite(gn * lr):
+                    run.probes["norm_transfer_skip"] += 1
+                    continue
+                # the implementation divides by (|P| + 1e-16): for a tiny Shampoo direction the transferred norm falls
+                # short of |graft| by the relative amount 1e-16 / |P|
+                tol = (8 * rt + 2 * exp.slack + 2 * exp.asym + 2e-16 / sn) * lr * gn * exp.amplification + round_off
+                ctx = {"block": b.key, "param": b.param_index, "shape": list(b.block.shape)}
+                if abs(dn - lr * gn) > tol:
+                    raise run.violation("graft_norm_not_transferred", gi, delta_norm=dn, expected=lr * gn, tol=tol, **ctx)
+                if dn > 20 * round_off and dn > 0:
+                    cos = float((delta * (-exp.shampoo_direction)).sum()) / (dn * sn)
+                    ctol = (8 * rt + 2 * exp.slack + 2 * exp.asym) * exp.amplification + 2 * round_off / dn
+                    if cos < 1.0 - max(ctol, 1e-12) and ctol < 0.5:
+                        raise run.violation("direction_not_shampoo", gi, cosine=cos, tol=ctol, **ctx)
+                run.probes["norm_transfer_checked"] += 1
+
+
+class TorchOptimTwin(Oracle):
+    """C02 first sentence: during warm-up the grafted configuration follows torch.optim's own optimizer (lock-step twin
+    on cloned parameters, re-synchronised after every comparison)."""
+
+    def __init__(self, target: str) -> None:
+        self.target = target
+
+    def on_built(self, run: SingleRun) -> None:
+        self.tparams = [p.detach().clone().requires_grad_(True) for p in run.params]
+        groups = []
+        for gi, g in enumerate(run.trace["groups"]):
+            hp = run.hps[gi]
+            d: dict[str, Any] = {"params": [self.tparams[pi] for pi in g["params"]], "lr": hp.lr, "weight_decay": hp.weight_decay}
+            gr = hp.grafting
+            if self.target == "sgd":
+                d.update(momentum=hp.momentum, dampening=0.0, nesterov=bool(hp.nesterov and hp.momentum > 0))
+            elif self.target == "adagrad":
+                d.update(eps=gr["epsilon"], lr_decay=0.0, initial_accumulator_value=0.0)
+            elif self.target == "rmsprop":
+                d.update(alpha=gr["beta2"], eps=gr["epsilon"], momentum=hp.momentum, centered=False)
+            else:
+                d.update(betas=(hp.beta1, gr["beta2"]), eps=gr["epsilon"])
+            groups.append(d)
+        cls = {
+            "sgd": torch.optim.SGD,
+            "adagrad": torch.optim.Adagrad,
+            "rmsprop": torch.optim.RMSprop,
+            "adam": torch.optim.Adam,
+            "adamw": torch.optim.AdamW,
+        }[self.target]
+        kw: dict[str, Any] = {"lr": 0.1}
+        if self.target in ("adagrad", "adam", "adamw", "rmsprop", "sgd"):
+            kw["foreach"] = False
+        self.topt = cls(groups, **kw)
+
+    def on_hparam(self, run: SingleRun, ei: int, ev: dict) -> None:
+        self.topt.param_groups[ev["group"]][ev["key"]] = ev["value"]
+
+    def pre_step(self, run: SingleRun, ei: int, ev: dict) -> None:
+        for p, tp in zip(run.params, self.tparams):
+            tp.grad = None if p.grad is None else p.grad.detach().clone()
+        self.prev = [tp.detach().clone() for tp in self.tparams]
+
+    def post_step(self, run: SingleRun, ei: int, ev: dict, exc: BaseException | None) -> None:
+        if exc is not None:
+            return
+        self.topt.step()
+        from .worldrun import rel_param_gap
+
+        for gi, g in enumerate(run.trace["groups"]):
+            hp = run.hps[gi]
+            t = run.counters[gi]
+            if t >= hp.start:
+                continue
+            for pi in g["params"]:
+                a = run.params[pi].detach()
+                e = self.tparams[pi].detach()
+                if not (refmodel.is_finite(a) and refmodel.is_finite(e)):
+                    run.probes["nonfinite_state_skip"] += 1
+                    continue
+                slack = 0.0
+                if self.target in ("adam", "adamw") and ev["g"][pi] is not None:
+                    b2 = hp.grafting["beta2"]
+                    bc1 = 1.0 - hp.beta1**t
+                    bc2 = 1.0 - b2**t if b2 < 1.0 else 1.0
+                    slack = refmodel._bc_slack(bc1, t) + 0.5 * refmodel._bc_slack(bc2, t)
+                tol = {torch.float64: 1e-9, torch.float32: 2e-4, torch.bfloat16: 1e-1}[a.dtype] + 2 * slack
+                gap = rel_param_gap(a, e, self.prev[pi])
+                run.probes["torch_optim_compare"] += 1
+                if gap > tol:
+                    raise run.violation(
+                        f"diverges_from_torch_optim:{self.target}", gi, param=pi, gap=gap, tol=tol, present=ev["g"][pi] is not None
+                    )
+        with torch.no_grad():
+            for p, tp in zip(run.params, self.tparams):
+                tp.copy_(p.detach())
